@@ -107,6 +107,8 @@ def check_C10(ctx):
         cs.eval(t_, o_, fam_)
     for (t_, o_, fam_, *_m) in scale.wide_objects(ctx):
         cs.eval(t_, o_, fam_)
+    for (t_, o_, fam_, *_m) in scale.shared_suffixes(ctx):
+        cs.eval(t_, o_, fam_)
     res = ctx.run(cs)
     ctx.exhaustive = True
     ctx.compare(cs.cases, res, ['verdict', 'err'], scope=accepted)
@@ -421,6 +423,16 @@ def check_C08(ctx):
             a = ctx.rng.choice([S(pick), S(pick.swapcase()), S(pick + 'x'), ('str', pick.upper().encode()), I(1), S(rand_str(ctx.rng, 3))])
         fmt = ctx.rng.choice(['%s', '%s', 'k eq 1 and %s', '%s or k eq 2', 'not (%s)', 'k in [3,4] or %s', '%s and k in [1]', 'q in ["z"] or %s'])
         add_group((k, l), a, 'in-random', path=ctx.rng.choice([['x'], ['n', 'x']]), ctxfmt=fmt)
+    # string membership over the whole case-mapping table: elements / attribute = capitalised variants of one lower-case text
+    low_, up_ = go_lower_table()
+    special_ = sorted(l for l, us in up_.items() if len(us) > 1 or any(len(chr(u).encode('utf-8', 'surrogatepass')) != len(chr(l).encode('utf-8', 'surrogatepass')) for u in us))
+    letters_ = [chr(c) for c in special_ + [0x17f, 0x3c2, 0x3d1, 0x3d0, 0x3f0, 0x3f1, 0x3f5, 0x1e9b, 0xb5, 0x131, 0xdf] if chr(c) not in '"\\'] + list('abkis')
+    for _ in range(ctx.n(300, 8000)):
+        n = ctx.rng.choice([1, 2, 3, 5])
+        bases = [''.join(ctx.rng.choice(letters_) for _ in range(ctx.rng.randint(1, 4))) for _ in range(n)]
+        l = [case_variant(ctx.rng, b, up_) for b in bases]
+        a = S(case_variant(ctx.rng, ctx.rng.choice(bases), up_)) if ctx.rng.random() < 0.8 else S(case_variant(ctx.rng, ctx.rng.choice(bases) + 'x', up_))
+        add_group(('strings', l), a, 'in-casemap')
     # size and shape beyond small random rules (harness/scale.py)
     for (t_, o_, fam_, *_m) in scale.long_lists(ctx):
         cs.eval(t_, o_, fam_)
@@ -868,8 +880,19 @@ def check_C02(ctx):
             deep_groups.append((c_, m_[1], [cs.eval(ct_, o_, 'deep-path-alone') for ct_ in m_[0]]))
     for (t_, o_, fam_, *_m) in scale.wide_objects(ctx):
         cs.eval(t_, o_, fam_)
+    for (t_, o_, fam_, m_) in scale.shared_suffixes(ctx) + scale.aligned_lines(ctx):
+        c_ = cs.eval(t_, o_, fam_)
+        if m_:
+            deep_groups.append((c_, m_[1], [cs.eval(ct_, o_, 'deep-path-alone') for ct_ in m_[0]]))
     res = ctx.run(cs)
     ctx.compare(cs.cases, res, ['verdict', 'err', 'dbg'], scope=accepted)
+    # what ONE path denotes is fixed by the statement (successive exact lookups, absent as soon as a step is missing or nil):
+    # for rules made of a single comparison a disagreement with the proved model is a failing input
+    for (c, f, i_, m_) in ctx.mismatches:
+        if c.kind == 'eval' and f in ('verdict', 'err') and ' and ' not in c.line and ' or ' not in c.line:
+            txt = bytes.fromhex(c.line.split(' ')[2][1:]).decode('utf-8', 'replace')
+            if ' and ' not in txt and ' or ' not in txt and '\n' not in txt:
+                ctx.violation('what the path denotes: implementation %s=%s, specification (proved model) %s=%s' % (f, i_, f, m_), [c])
     def comb(cb, L, P):
         return {'%(L)s and %(P)s': L and P, '%(P)s and %(L)s': P and L, '%(L)s or %(P)s': L or P, '%(P)s or %(L)s': P or L,
                 'not (%(P)s) and %(L)s': (not P) and L, '%(L)s and not (%(P)s)': L and not P,
@@ -1025,6 +1048,9 @@ def check_C15(ctx):
             for v in variants:
                 if v.startswith('x in ['):
                     cs.eval(v, o, 'spell-scale')
+    for (t_, o_, fam_, *_m) in scale.aligned_lines(ctx):
+        canon_ = cs.eval(t_.replace(' \n', ' '), o_, 'aligned-lines')
+        groups.append((canon_, [cs.eval(t_, o_, 'aligned-lines')]))
     res = ctx.run(cs)
     ctx.compare(cs.cases, res, ['accept', 'verdict', 'err', 'dbg'])
     for canon, vs in groups:
@@ -1083,6 +1109,14 @@ def check_C20(ctx):
     # long tokens (harness/scale.py)
     for t_ in scale.long_tokens(ctx):
         cs.syntax(t_, 'long-token')
+    for depth in ([8, 16, 17, 31, 32, 33, 64, 65, 100] if ctx.quick else [8, 16, 17, 31, 32, 33, 64, 65, 100, 257, 600]):
+        cs.syntax('(' * depth + 'x eq 1' + ')' * depth, 'deep-sentence')
+        cs.syntax('( ' * depth + 'x eq 1' + ' )' * depth, 'deep-sentence')
+        t_ = 'z pr'
+        for i_ in range(depth):
+            t_ = 'a%d pr and (%s)' % (i_, t_) if i_ % 2 else 'not (%s) or b%d eq %d' % (t_, i_, i_)
+        cs.syntax(t_, 'deep-sentence')
+        cs.syntax(t_ + ')', 'deep-sentence')
     res = ctx.run(cs)
     ctx.compare(cs.cases, res, ['lexok', 'toks', 'accept', 'tree'], nontrivial=lambda c, mo: True)
     nacc = sum(1 for c in cs.cases if (res.model.get(c.id) or {}).get('accept') == '1')
@@ -1110,7 +1144,7 @@ def check_C20(ctx):
     spread_samples(ctx, cs, res)
 
 # ----------------------------------------------------------------------------
-HOSTILE = [('strpanic',), ('strnilptr',), ('strselfpanic',), ('nilmap',), ('nil',), F(float('nan')), F(float('inf')), F(float('-inf'))] + [('o', t) for t in list(range(21)) + [22, 23, 24, 25, 26, 27, 29, 30, 31, 32]] + \
+HOSTILE = [('strpanic',), ('strnilptr',), ('strselfpanic',), ('nilmap',), ('nil',), F(float('nan')), F(float('inf')), F(float('-inf'))] + [('o', t) for t in list(range(21)) + [22, 23, 24, 25, 26, 27, 29, 30, 31, 32, 33, 34]] + \
           [('str', b'abc'), ('strptr', b'1.0.0'), ('m', [(b'y', ('strpanic',))]), ('m', [(b'y', ('o', 3))])]
 
 def check_C07(ctx):
@@ -1289,6 +1323,13 @@ def check_C13(ctx):
     for (t_, o_, fam_, *_m) in scale.deep_paths(ctx):
         cs.eval(t_, o_, fam_)
     for (t_, o_, fam_, *_m) in scale.long_lists(ctx):
+        cs.eval(t_, o_, fam_)
+    big = obj({'doc': {'body': S('x' * 300), 'n': {'deep': S('Y' * 1000), 'l': ('o', 33)}, 'Title': S('T')}, 'Roles': ('o', 33), 'roles': ('o', 34), 'k': I(1)})
+    for t in ['doc eq "t"', 'doc gt true', 'doc in [1, 2]', 'doc co "x"', 'doc eq 1', 'doc.n eq 1.5', 'doc.n.deep eq "y"', 'doc.n.deep co "yy"', 'DOC.body pr', 'doc.BODY pr', 'doc.title eq "t"',
+              'Doc.Title eq "T" or k eq 1', 'roles co "admin"', 'Roles co "admin"', 'Roles sw "a"', 'roles in ["admin"]', 'Roles in ["admin", "root"]', 'Roles eq "Admin"', 'doc.n.l co "root"',
+              'K eq 1', 'k eq 1 and ROLES pr', 'doc.n.l ew "s" or doc.n.deep ew "y"']:
+        cs.eval(t, big, 'big-values')
+    for (t_, o_, fam_, *_m) in scale.shared_suffixes(ctx) + scale.aligned_lines(ctx)[:200]:
         cs.eval(t_, o_, fam_)
     res = ctx.run(cs)
     ctx.compare([c for c in cs.cases if c.kind in ('eval', 'evals')], res, ['verdict', 'err'])
